@@ -295,54 +295,91 @@ def appendBlanks : Heap → Addr → Nat → Option Heap
     | some o => appendBlanks (h1.set l { o with refs := o.refs ++ [b] }) l n
     | none => none
 
+/-- `for txin in txtmp.vin: txin.scriptSig = b''`, then `txtmp.vin[inIdx].scriptSig = sub`;
+    returns the heap and the input object `txtmp.vin[inIdx]` -/
+def sigScripts (h1 : Heap) (ins : List Addr) (sub : Bytes) (inIdx : Nat) : Option (Heap × Addr) :=
+  match foldAssign (.scriptSig []) h1 ins with
+  | none => none
+  | some h2 =>
+    match ins[inIdx]? with
+    | none => none
+    | some xi =>
+      match assignAt h2 xi (.scriptSig sub) with
+      | some (.ok h3) => some (h3, xi)
+      | _ => none
+
+/-- the `SIGHASH_NONE` branch: `txtmp.vout = []`, other inputs' sequence numbers zeroed -/
+def sigNone (h3 : Heap) (c : Addr) (ins : List Addr) (inIdx : Nat) : Option Heap :=
+  let (h4, l) := alloc h3 { isMut := true, sc := .seq .outs, refs := [] }
+  match setRef h4 c 1 l with
+  | none => none
+  | some h5 => zeroSeqs inIdx h5 ins 0
+
+/-- the `SIGHASH_SINGLE` branch after the range check: `tmp` is `txtmp.vout[outIdx]` -/
+def sigSingle (h3 : Heap) (c : Addr) (ins : List Addr) (inIdx : Nat) (tmp : Addr) : Option Heap :=
+  let (h4, l) := alloc h3 { isMut := true, sc := .seq .outs, refs := [] }
+  match setRef h4 c 1 l with
+  | none => none
+  | some h5 =>
+    match appendBlanks h5 l inIdx with
+    | none => none
+    | some h6 =>
+      match h6[l]? with
+      | none => none
+      | some o => zeroSeqs inIdx (h6.set l { o with refs := o.refs ++ [tmp] }) ins 0
+
+/-- `SIGHASH_ANYONECANPAY`: `tmp = txtmp.vin[inIdx]; txtmp.vin = []; txtmp.vin.append(tmp)` -/
+def sigAnyone (h8 : Heap) (c xi : Addr) : Option Heap :=
+  let (h9, l) := alloc h8 { isMut := true, sc := .seq .ins, refs := [] }
+  match setRef h9 c 0 l with
+  | none => none
+  | some h9' => setItems h9' l [xi]
+
+/-- `txtmp.wit = CTxWitness()` -/
+def sigWit (h10 : Heap) (c : Addr) : Option Heap :=
+  let (h11, w) := alloc h10 { isMut := false, sc := .wit, refs := [emptyTuple] }
+  setRef h11 c 2 w
+
+def sigDigest (h12 : Heap) (c : Addr) (ht : Nat) : Res Bytes :=
+  match absVal h12 c with
+  | some v => do
+      let s ← serVal v
+      let t ← Wire.packI 4 (ht : Int)
+      pure (Crypto.hash256 (s ++ t))
+  | none => .error (.py "ModelStuck")
+
 /-- the surgery on the private copy `c` (script.py:935-970); result: final heap and
     `some digest`, or `none` digest for the early `HASH_ONE` return -/
-def surgery (h1 : Heap) (c : Addr) (sub : Bytes) (inIdx ht : Nat) : Option (Heap × Option (Res Bytes)) := do
-  let (_, vinL, voutL, _) ← txParts h1 c
-  let ins ← (h1[vinL]?).map (·.refs)
-  let h2 ← foldAssign (.scriptSig []) h1 ins
-  let xi ← ins[inIdx]?
-  let h3 ← match assignAt h2 xi (.scriptSig sub) with
-    | some (.ok h) => some h
-    | _ => none
-  let outs ← (h3[voutL]?).map (·.refs)
-  let step2 : Option (Option Heap) :=          -- inner none = early return
-    if ht % 32 = 2 then do
-      let (h4, l) := alloc h3 { isMut := true, sc := .seq .outs, refs := [] }
-      let h5 ← setRef h4 c 1 l
-      let h6 ← zeroSeqs inIdx h5 ins 0
-      pure (some h6)
-    else if ht % 32 = 3 then
-      match outs[inIdx]? with
-      | none => some none
-      | some tmp => do
-        let (h4, l) := alloc h3 { isMut := true, sc := .seq .outs, refs := [] }
-        let h5 ← setRef h4 c 1 l
-        let h6 ← appendBlanks h5 l inIdx
-        let o ← h6[l]?
-        let h7 := h6.set l { o with refs := o.refs ++ [tmp] }
-        let h8 ← zeroSeqs inIdx h7 ins 0
-        pure (some h8)
-    else some (some h3)
-  match ← step2 with
-  | none => pure (h3, none)
-  | some h8 =>
-    let h10 ←
-      if ht / 128 % 2 = 1 then do
-        let (h9, l) := alloc h8 { isMut := true, sc := .seq .ins, refs := [] }
-        let h9 ← setRef h9 c 0 l
-        setItems h9 l [xi]
-      else some h8
-    let (h11, w) := alloc h10 { isMut := false, sc := .wit, refs := [emptyTuple] }
-    let h12 ← setRef h11 c 2 w
-    let digest : Res Bytes :=
-      match absVal h12 c with
-      | some v => do
-          let s ← serVal v
-          let t ← Wire.packI 4 (ht : Int)
-          pure (Crypto.hash256 (s ++ t))
-      | none => .error (.py "ModelStuck")
-    pure (h12, some digest)
+def surgery (h1 : Heap) (c : Addr) (sub : Bytes) (inIdx ht : Nat) : Option (Heap × Option (Res Bytes)) :=
+  match txParts h1 c with
+  | none => none
+  | some (_, vinL, voutL, _) =>
+    match h1[vinL]? with
+    | none => none
+    | some lo =>
+      match sigScripts h1 lo.refs sub inIdx with
+      | none => none
+      | some (h3, xi) =>
+        match h3[voutL]? with
+        | none => none
+        | some vo =>
+          let branch : Option (Option Heap) :=          -- inner none = early return
+            if ht % 32 = 2 then (sigNone h3 c lo.refs inIdx).map some
+            else if ht % 32 = 3 then
+              match vo.refs[inIdx]? with
+              | none => some none
+              | some tmp => (sigSingle h3 c lo.refs inIdx tmp).map some
+            else some (some h3)
+          match branch with
+          | none => none
+          | some none => some (h3, none)
+          | some (some h8) =>
+            match (if ht / 128 % 2 = 1 then sigAnyone h8 c xi else some h8) with
+            | none => none
+            | some h10 =>
+              match sigWit h10 c with
+              | none => none
+              | some h12 => some (h12, some (sigDigest h12 c ht))
 
 /-- `RawSignatureHash(script, txTo, inIdx, hashtype)` with `txTo` the object at `a`;
     the digest is `HASH_ONE` in the two error-code cases -/
